@@ -231,6 +231,9 @@ def _run(tape, clock):
     if copy_on:
         spec.op.params = {'copy_data_on_intercepion': True}
         run.probe('copy_on_interception')
+        if tape.draw(3) == 2:
+            spec.op.params_style = 'attributes'
+            run.probe('copy_on_interception_enabled_by_attribute')
     # the service mutates what it got right after each interception (record phase only with copy-on-interception)
     body_mut = []
     for st in spec.body:
